@@ -25,4 +25,11 @@ META = {
         'note': PROOF_NOTE + 'the statement evaluator is abstract (any state transformer); nesting is exercised through the concrete instance only.',
         'technique': 'Lean 4 proof (induction over the statement list, refinement to a declarative reference) + exhaustive exit-point x defer-layout correspondence',
     },
+    'C20': {
+        'text': 'Theorem for any number of threads, any sequence of calls per thread and every interleaving of the RWMutex transition system: no state is reachable in which two threads are '
+                'about to touch the same table with one writing, provided each function body is balanced; the bodies are regenerated from object/*.go on every run and checked by decide. '
+                'Complemented by a -race build running concurrent evaluations that intern and read symbols.',
+        'note': 'Trusted: Lean kernel, standard axioms, the go/ast translator (fail-closed), sync.RWMutex semantics as modelled; only symHashTable/strTable are covered; implementation schedules are sampled.',
+        'technique': 'Lean 4 proof (invariant over all interleavings of an RWMutex LTS) over lock sequences regenerated from source + race-detector soak',
+    },
 }
